@@ -358,9 +358,14 @@ func structuralShrinks(c *Case) []*Case {
 // Shrink greedily applies Shrinks while `fails` keeps returning the same failure class.
 func Shrink(c *Case, class string, fails func(*Case) string) *Case {
 	cur := c
-	for steps := 0; steps < 400; steps++ {
+	budget := 4000 // candidate evaluations
+	for steps := 0; steps < 400 && budget > 0; steps++ {
 		progressed := false
 		for _, d := range Shrinks(cur) {
+			budget--
+			if budget <= 0 {
+				break
+			}
 			if fails(d) == class {
 				cur, progressed = d, true
 				break
